@@ -473,6 +473,9 @@ int disasm_68000(
           return len;
         case OP_MOVEA:
           size = (opcode >> 12) & 0x3;
+          // movea is word (11) or long (10) only; size 00 are ori, subi,
+          // bit operations, movep... whose table rows come after this one.
+          if (size < 2) { break; }
           size = (size == 3) ? SIZE_W:SIZE_L;
           reg = (opcode >> 9) & 0x7;
           len  = get_ea_68000(memory, address, ea, sizeof(ea), opcode, 0, size);
